@@ -87,10 +87,12 @@ End OneStream.
    ==================================================================================================== *)
 Section CSim.
   Variable decomp : dict -> bytes -> option bytes.
+  (* whatever else relates a stream to what it is replaced by *)
+  Variable Q : dict -> bytes -> dict -> bytes -> Prop.
 
   Definition same_obj (o o' : obj) : Prop :=
     match o with
-    | OStream sd c => exists sd' c', o' = OStream sd' c' /\ payload decomp sd' c' = payload decomp sd c
+    | OStream sd c => exists sd' c', o' = OStream sd' c' /\ payload decomp sd' c' = payload decomp sd c /\ Q sd c sd' c'
     | _ => o' = o
     end.
 
@@ -132,6 +134,14 @@ Section CSim.
     - rewrite H. reflexivity.
   Qed.
 
+  Lemma get_object_stream_csim id sd' c' : get_object m' id = Some (OStream sd' c') ->
+    exists sd c, get_object m id = Some (OStream sd c) /\ Q sd c sd' c'.
+  Proof.
+    intro G. pose proof (get_object_csim id) as H. destruct (get_object m id) as [o|]; [|congruence].
+    destruct H as (o' & E & Hs). rewrite E in G. inversion G; subst o'.
+    destruct o; cbn [same_obj] in Hs; try discriminate. destruct Hs as (sd2 & c2 & E2 & _ & HQ). inversion E2; subst. eauto.
+  Qed.
+
   Lemma get_dictionary_csim id : get_dictionary m' id = get_dictionary m id.
   Proof.
     unfold get_dictionary. pose proof (get_object_csim id) as H. destruct (get_object m id) as [o|].
@@ -160,7 +170,7 @@ Section CSim.
     induction ids as [|id ids IH]; [reflexivity|]. cbn [Query.concat_streams]. pose proof (get_object_csim id) as H.
     destruct (get_object m id) as [o|].
     - destruct H as (o' & -> & Hs). destruct o as [| | | | | | | |sd c|]; cbn [same_obj] in Hs; try (rewrite Hs; exact IH).
-      destruct Hs as (sd' & c' & -> & Hp).
+      destruct Hs as (sd' & c' & -> & Hp & _).
       change (payload decomp sd' c' ++ Query.concat_streams decomp m' ids = payload decomp sd c ++ Query.concat_streams decomp m ids).
       rewrite Hp, IH. reflexivity.
     - rewrite H. exact IH.
@@ -275,16 +285,24 @@ Section DocCompress.
   Hypothesis inflate_ok : implements_inflate inflate.
   Notation decomp := (stream_decomp inflate lzw).
 
-  Lemma same_obj_refl o : same_obj decomp o o.
-  Proof. destruct o; try reflexivity. cbn [same_obj]. eauto. Qed.
+  (* what a stream is replaced by: itself, or the stream Stream::compress builds *)
+  Definition compress_rel (sd : dict) (c : bytes) (sd' : dict) (c' : bytes) : Prop :=
+    (sd' = sd /\ c' = c) \/
+    {| s_dict := sd'; s_content := c' |} = compressed_form deflate {| s_dict := sd; s_content := c |}.
+
+  Lemma same_obj_refl o : same_obj decomp compress_rel o o.
+  Proof. destruct o; try reflexivity. cbn [same_obj]. eexists _, _. split; [reflexivity|]. split; [reflexivity|]. left. split; reflexivity. Qed.
 
   Lemma compress_obj_same nocomp m : compressible deflate m ->
-    forall id o, lookup m id = Some o -> same_obj decomp o (compress_obj deflate nocomp id o).
+    forall id o, lookup m id = Some o -> same_obj decomp compress_rel o (compress_obj deflate nocomp id o).
   Proof.
     intros HC id o L. destruct o; try reflexivity. cbn [compress_obj].
     destruct (existsb (oid_eqb id) nocomp); [apply same_obj_refl|].
-    destruct (HC id d content L) as [W V]. cbn [same_obj]. eexists _, _. split; [reflexivity|].
-    apply (payload_compress inflate lzw deflate {| s_dict := d; s_content := content |} inflate_ok W V).
+    destruct (HC id d content L) as [W V]. cbn [same_obj]. eexists _, _. split; [reflexivity|]. split.
+    - apply (payload_compress inflate lzw deflate {| s_dict := d; s_content := content |} inflate_ok W V).
+    - destruct (compress_cases deflate {| s_dict := d; s_content := content |}) as [E | (_ & _ & E)]; rewrite E.
+      + left. split; reflexivity.
+      + right. destruct (compressed_form deflate {| s_dict := d; s_content := content |}); reflexivity.
   Qed.
 
   (* the page view of the compressed document is the page view of the document *)
@@ -292,7 +310,7 @@ Section DocCompress.
     compressible deflate m ->
     doc_page decomp decode fuel (doc_compress deflate nocomp m) pid = doc_page decomp decode fuel m pid.
   Proof.
-    intro HC. apply (doc_page_csim decomp (compress_obj deflate nocomp) m _ (compress_obj_same nocomp m HC) (lookup_doc_compress deflate nocomp m)).
+    intro HC. apply (doc_page_csim decomp compress_rel (compress_obj deflate nocomp) m _ (compress_obj_same nocomp m HC) (lookup_doc_compress deflate nocomp m)).
   Qed.
 
   Theorem page_content_compress nocomp m fuel pid :
@@ -301,8 +319,8 @@ Section DocCompress.
     Query.get_page_fonts fuel (doc_compress deflate nocomp m) pid = Query.get_page_fonts fuel m pid.
   Proof.
     intro HC. split.
-    - apply (get_page_content_csim decomp (compress_obj deflate nocomp) m _ (compress_obj_same nocomp m HC) (lookup_doc_compress deflate nocomp m)).
-    - apply (get_page_fonts_csim decomp (compress_obj deflate nocomp) m _ (compress_obj_same nocomp m HC) (lookup_doc_compress deflate nocomp m)).
+    - apply (get_page_content_csim decomp compress_rel (compress_obj deflate nocomp) m _ (compress_obj_same nocomp m HC) (lookup_doc_compress deflate nocomp m)).
+    - apply (get_page_fonts_csim decomp compress_rel (compress_obj deflate nocomp) m _ (compress_obj_same nocomp m HC) (lookup_doc_compress deflate nocomp m)).
   Qed.
 
   (* ---------- THE COMPOSITION: written operations -> compress -> save -> load -> extract ---------- *)
